@@ -5,12 +5,16 @@ V = os.path.dirname(os.path.dirname(os.path.abspath(__file__)))
 NOTE = ("Trusted base: rustc nightly front end as driven by /verif/driver (typed HIR + MIR facts of the real cargo build of /repo's working tree), "
         "the may-depend flow evaluator and the obligation/pairing tables in /verif/rules. Decides structural necessary conditions only; the behavioural statement itself is not decided.")
 CLAIMED = {
+ 'C02': ('obligation tables over typed HIR data-flow (native PLONK verifier, three vanishing evaluators, gate filter, public-input wiring, copy-class handling), call-order rules',
+         'Static: the quotient identity is checked for every challenge with all openings and challenges entering the vanishing evaluation; all four vanishing term groups and alpha reach the value returned by each of the three evaluators; the selector filter multiplies every gate constraint; every gate is evaluated; the public-input hash is wired to the PublicInputGate; conflicting copy-class assignments are refused; sigma is built from merged, compressed classes. Sufficiency of the constraint system is not decided.', '5/C02'),
  'C03': ('dead-field analysis over the verifier closure (typed HIR data-flow), type-driven length-pin coverage, FRI/PLONK obligation tables',
          'Static: every leaf field of the proof type family reaches an absorption, an Err-guard or a Merkle check; every length is pinned for equality; all FRI/PLONK verifier checks exist, are unconditional, propagate errors and are fed by the proof data they bind; the preprocessed cap comes from the verifier data; the compressed path pins the public-input count and shares the final verifier. Known finding D3 (compressed proof shape unvalidated). Value-level binding (Fiat-Shamir, collision resistance) is not decided.', '5/C03'),
  'C04': ('transcript extraction (ordered observe/squeeze events with all challenger-taking callees inlined), completeness against type-checker-enumerated struct fields, protocol ordering table, three-way sequence alignment, sponge typestate',
          'Static: native and in-circuit verifier transcripts (PLONK, STARK) absorb every statement and proof field (query answers excepted); each challenge is squeezed after the messages it must follow; prover, verifier and circuit transcripts align event by event (reviewed padding asymmetry); duplex-sponge typestate; sponge state private to the challenger. Hash/random-oracle behaviour is not decided.', '5/C04'),
  'C05': ('obligation tables over typed HIR data-flow (native FRI + batch FRI verifiers), zip-partner length pinning',
          'Static: every soundness-critical check of fri::verifier and batch_fri::verifier exists, propagates its error, depends on the proof/challenge data it must depend on, ranges over the whole sequence, and no checking loop can be truncated by an unpinned zip partner. Necessary conditions of C05; sufficiency of the checks (algebra) is not decided.', '5/C05'),
+ 'C06': ('twin obligation tables (native check <-> in-circuit assertion sink with corresponding sources), transcript alignment, field-coverage of witness-assignment routines, opening-order comparison',
+         'Static: every native PLONK/FRI/Merkle check has an unconditional in-circuit twin fed by the corresponding targets (incl. the variable-degree FRI variant); the in-circuit transcript aligns with the native one; set_proof_with_pis_target/set_verifier_data_target write every target field from the same-named value field; native and target opening sets are flattened in the same order. Equality of the accepted sets is not decided.', '5/C06'),
  'C18': ('interprocedural taint over typed HIR (validators/decoders panic census), type-driven length-pin coverage, validate-before-use ordering',
          'Static: validators and proof decoders contain no panic site fed by input-derived data in their workspace call closure; every vector/cap/option length of the proof type family is pinned by an Err-guard; every entry point validates before use; decoders never allocate by an input-read size. Known finding D3 (compressed path unvalidated) is listed in known_findings.json.', '5/C18'),
 }
